@@ -168,6 +168,15 @@ def run(F, R):
             R.check("C05-R5", "no-reboot-after-install-error", not bad, "after an installation error neither reboot_needed is asked nor Needed built",
                     "after an installation error the flow still reaches %s" % [Sc.nodes[x].loc() for x in bad])
         _errors_gate(R, sm, Sc, sites)
+        # the collected errors are the failures only if every offered app consumes exactly its own installer result
+        # (shared with C04-R3: the result-building table and its alignment with the offered-update filter)
+        try:
+            from . import c04 as _c04
+            hdr_ = [cx_ for cx_ in Sc.ctxs if cx_.bv.body.get("item") == "perform_update_check" or "perform_update_check" in cx_.bv.id]
+            if hdr_:
+                _c04._alignment(_Alias(R, "C04-R3", "C05-R5", "alignment:"), sm, hdr_[0])
+        except ImportError:
+            pass
         ra = sm.env(S, "Policy", "reboot_allowed")
         ra_e = sm.bool_edges(S, lambda n, t: "reboot_allowed" in fmt_t(t))
         ra_false = [(a, b) for (a, b, tr) in ra_e if not tr]
@@ -182,6 +191,34 @@ def run(F, R):
             wctx = S.nodes[pr[0]].ctx
             r4 = reach_in(S, [wctx.entry], wctx, cut_edges=ra_true)
             R.check("C05-R5", "some-answer-yes", not (set(pr) & r4), "perform_reboot requires reboot_allowed() == true", "perform_reboot reachable with no positive reboot_allowed answer")
+
+
+class _Alias:
+    """Forward rule instances of a shared sub-check under this property's rule id."""
+
+    def __init__(self, R, src, dst, prefix):
+        self.R, self.src, self.dst, self.prefix = R, src, dst, prefix
+
+    def _r(self, rule):
+        return self.dst if rule == self.src else rule
+
+    def check(self, rule, key, *a, **k):
+        return self.R.check(self._r(rule), self.prefix + key, *a, **k)
+
+    def violation(self, rule, key, *a, **k):
+        return self.R.violation(self._r(rule), self.prefix + key, *a, **k)
+
+    def holds(self, rule, key, *a, **k):
+        return self.R.holds(self._r(rule), self.prefix + key, *a, **k)
+
+    def inconclusive(self, rule, key, *a, **k):
+        return self.R.inconclusive(self._r(rule), self.prefix + key, *a, **k)
+
+    def floor(self, rule, *a, **k):
+        return self.R.floor(self._r(rule), *a, **k)
+
+    def __getattr__(self, n):
+        return getattr(self.R, n)
 
 
 def _unref(t):
@@ -270,6 +307,20 @@ def _builder_field_flow(R, c):
             p = strip(ret[3][ret[4].index("params")])
             ok = p == ("param", 2)
         R.check("C05-R3", "new-keeps-params", ok, "RequestBuilder.params <- clone of the params argument", "RequestBuilder::new does not store its params argument: " + fmt_t(ret)[:160])
+    # the parameters are fixed at construction: no other builder method writes self.params
+    pw = []
+    for b_ in c.bodies:
+        if (b_.get("impl_self") or "").startswith(RB) and b_.get("item") != "new":
+            v_ = BV.of(b_)
+            for (bi_, si_, p_, r_) in v_.field_writes:
+                if bi_ in v_.reach0 and "params" in smod._chain(p_)[:1]:
+                    pw.append((b_["name"], lib.loc(v_, bi_)))
+            rt_ = strip(v_.trace_local(0))
+            if rt_[0] == "agg" and len(rt_) > 4 and "params" in rt_[4] and (rt_[2] or "").endswith("RequestBuilder::RequestBuilder"):
+                pv_ = lib.apath(rt_[3][rt_[4].index("params")])
+                if pv_ != "param1.params":
+                    pw.append((b_["name"], "returns a builder with params <- %s" % pv_))
+    R.check("C05-R3", "params-fixed-at-construction", not pw, "RequestBuilder.params is only set by new()", "a builder method replaces the request parameters after construction: %s" % pw)
     bi = lib.one(R, "C05-R3", c, "RequestBuilder::build_intermediate", item="build_intermediate", impl_self=RB)
     if bi:
         from .. import flow as _flow
